@@ -45,6 +45,17 @@ pub struct ParentCfg {
     /// closed); otherwise they stay above 2 and the library's own descriptors get the low numbers
     #[serde(default)]
     pub files_low: bool,
+    /// the parent runs with SIGTERM ignored (a supervisor that shuts down on its own terms);
+    /// children inherit that across exec
+    #[serde(default)]
+    pub sigterm_ignored: bool,
+    /// bit i set: the parent's own standard stream i is in non-blocking mode (an event-loop program)
+    #[serde(default)]
+    pub nonblock_std: u8,
+    /// the parent's environment block holds entries std::env cannot express: a name twice and
+    /// an entry without '=' (what a careless execve() by the parent's own parent leaves behind)
+    #[serde(default)]
+    pub env_odd: bool,
 }
 
 #[derive(Serialize, Deserialize, Clone, Debug)]
@@ -120,6 +131,9 @@ pub fn default_parent() -> ParentCfg {
         path_raw: None,
         closed_std: 0,
         files_low: false,
+        sigterm_ignored: false,
+        nonblock_std: 0,
+        env_odd: false,
     }
 }
 
